@@ -236,8 +236,22 @@ def legal_moves(st: State, rng: random.Random, pol: Policy, werr: bool):
         if st.showdown_indices:
             q = [i + 1 for i in st.showdown_indices]
             p = rng.choice(q) if ex else 0
-            if rng.random() < pol.manual_show:
-                who = (p - 1) if p else st.showdown_indices[0]
+            who = (p - 1) if p else st.showdown_indices[0]
+            hc = [card_int(c) for c in st.hole_cards[who]]
+            if 52 in hc:
+                # a hand with unknown cards cannot be tabled as it is: muck it, or table known cards in their place
+                if rng.random() < pol.muck and (pol.allow_orphan or safe_to_muck(st, who)):
+                    mv.append((1, 'show_or_muck_hole_cards', A(p=p, mode='bool', b=False)))
+                else:
+                    d = dealable(st)
+                    need = hc.count(52)
+                    if len(d) >= need:
+                        fill = rng.sample(d, need)
+                        cs = [c if c != 52 else fill.pop() for c in hc]
+                        mv.append((1, 'show_or_muck_hole_cards', A(p=p, mode='cards', cards=cs)))
+                    else:
+                        mv.append((1, 'show_or_muck_hole_cards', A(p=p, mode='bool', b=False)))
+            elif rng.random() < pol.manual_show:
                 b = rng.random() >= pol.muck or not (pol.allow_orphan or safe_to_muck(st, who))
                 mv.append((1, 'show_or_muck_hole_cards', A(p=p, mode='bool', b=b)))
             else:
